@@ -311,7 +311,7 @@ func c17Engine(sc *c17Sc, sp *Spies, mainSrc string) *twig.Engine {
 		fa := sp.FailAt
 		sp.FailAt = 0
 		observe(sp, func() (string, error) { return c17Render(sc, e, BuildCtx(sc.Prog.Ctx, 0)) })
-		sp.N, sp.Calls, sp.Kinds, sp.Fault, sp.FailAt = 0, map[string]int{}, nil, nil, fa
+		sp.N, sp.Calls, sp.Kinds, sp.Fault, sp.Outer, sp.FailAt = 0, map[string]int{}, nil, nil, nil, fa
 		tsl.mt += 10
 	}
 	return e
@@ -389,7 +389,9 @@ func (propC17) Run(scI interface{}) (o *Outcome) {
 			return failC17(o, "fault-propagation", "non-empty output returned with the error: "+pos, detail())
 		}
 		var inj *InjectedFault
-		if !errors.Is(got.err, sp.Fault) || !errors.As(got.err, &inj) || inj != sp.Fault {
+		var cbe *CallbackError
+		_, wrapped := sp.Outer.(*CallbackError)
+		if !errors.Is(got.err, sp.Fault) || !errors.As(got.err, &inj) || inj != sp.Fault || !errors.Is(got.err, sp.Outer) || (wrapped && (!errors.As(got.err, &cbe) || cbe != sp.Outer)) {
 			return failC17(o, "fault-propagation", "cause not reachable with errors.Is/As: "+pos, detail())
 		}
 		// the engine must stay usable: same engine, no fault
